@@ -22,10 +22,16 @@
 #@   args s
 #@   returns opaque
 #@   raises AddressValueError unless isv4(s)
+# (the name is IDNA-encoded first: a label that is empty or longer than 63 characters - "a..com" - raises UnicodeError,
+# a ValueError, NOT a socket error, before any resolution is attempted)
+#@ extern idna_ok
+#@   args s
+#@   returns bool
 #@ extern gethostbyname
 #@   args host
 #@   returns str
 #@   raises socket_error
+#@   raises UnicodeError unless idna_ok(host)
 #@   ensures isv4(result)
 #@ extern _PRIVATE_IP_RANGES.get
 #@   args prefix, default
